@@ -69,6 +69,8 @@ def _reg_roles(reg):
         r["fm"] = "src"
     elif "DST" in toks:
         r["fm"] = "dest"
+    elif reg == "NPU_SET_DMA0_LEN":
+        r["fm"] = "src"  # the transfer length is the source range's length
     for t in toks:
         if t in ("HEIGHT", "HEIGHT0", "HEIGHT1"):
             r["axis"] = "H"
